@@ -126,16 +126,6 @@ func (g *Gen) discharge(obls []*Obligation, workDir string, timeoutS int, all bo
 				return
 			}
 			r := runSolvers(fn, timeoutS, all && !o.Cover, skipCvc5)
-			if r.result == "unknown" && !o.Cover {
-				// one retry with a longer limit before giving up
-				r2 := runSolvers(fn, timeoutS*3, false, skipCvc5)
-				if r2.result != "unknown" {
-					r = r2
-				} else {
-					r.output += "\n--- retry ---\n" + r2.output
-				}
-			}
-			o.Result, o.Backend, o.Ms, o.Output = r.result, r.backend, r.ms, r.output
 			if r.result != "unsat" && o.Raw == "" {
 				// candidate counterexample search in the integer-carrier interpretation
 				cf := strings.TrimSuffix(fn, ".smt2") + ".cex.smt2"
@@ -145,6 +135,16 @@ func (g *Gen) discharge(obls []*Obligation, workDir string, timeoutS int, all bo
 					o.CexOutput = cr.output
 				}
 			}
+			if r.result == "unknown" && o.CexOutput == "" {
+				// one retry with a longer limit before giving up
+				r2 := runSolvers(fn, timeoutS*3, false, skipCvc5)
+				if r2.result != "unknown" {
+					r = r2
+				} else {
+					r.output += "\n--- retry ---\n" + r2.output
+				}
+			}
+			o.Result, o.Backend, o.Ms, o.Output = r.result, r.backend, r.ms, r.output
 		}(i, o)
 	}
 	wg.Wait()
@@ -178,6 +178,8 @@ func cexQuery(q string) string {
 			}
 		case strings.HasPrefix(l, "(assert (forall ((y (_ BitVec 64))) (! (=> (and (bvsle"):
 			continue // carrier axioms hold by definition here
+		case strings.HasPrefix(l, "(declare-fun go_bv"):
+			continue
 		case strings.HasPrefix(l, "(assert (forall ((n Int)) (! (= (bv2i64"), strings.HasPrefix(l, "(assert (forall ((y (_ BitVec 64))) (! (= (i2bv64"):
 			continue // bridge axioms: dropped for model finding (candidates are replayed)
 		}
@@ -188,6 +190,11 @@ func cexQuery(q string) string {
 	for _, r := range [][2]string{{"(fp.add RNE ", "(bvadd "}, {"(fp.sub RNE ", "(bvsub "}, {"(fp.mul RNE ", "(bvmul "}, {"(fp.div RNE ", "(bvsdiv "},
 		{"(fp.lt ", "(bvslt "}, {"(fp.leq ", "(bvsle "}, {"(fp.gt ", "(bvsgt "}, {"(fp.geq ", "(bvsge "}, {"(fp.eq ", "(= "}, {"(fp.neg ", "(bvneg "}} {
 		s = strings.ReplaceAll(s, r[0], r[1])
+	}
+	for _, op := range []string{"bvmul", "bvsdiv", "bvudiv", "bvsrem", "bvurem"} {
+		for _, w := range []string{"8", "16", "32", "64"} {
+			s = strings.ReplaceAll(s, "(go_"+op+w+" ", "("+op+" ")
+		}
 	}
 	// fp literals -> the integer they denote if integral, else their bit pattern
 	for {
